@@ -136,7 +136,7 @@ Definition expand_name_validated (abuf : list N) (enc alen : Z) (want is_hostnam
   : outcome (list N * Z) :=
   if alen =? 0 then Err ARES_EBADNAME else
   if (enc <? 0) || (enc >=? alen) then Err ARES_EBADNAME else
-  let buf := mkCur abuf alen 0 in                     (* ares_buf_create_const(abuf, alen) *)
+  let buf := mkCur abuf alen 0 abuf in                     (* ares_buf_create_const(abuf, alen) *)
   do c <- checked (set_position buf enc);
   do start_len <- buf_len c;
   do r <- dns_name_parse (name_fuel c) c want is_hostname;
@@ -159,7 +159,7 @@ Definition to_badstr {A} (m : outcome A) : outcome A :=
 Definition expand_string_ex (abuf : list N) (enc alen : Z) (want : bool) : outcome (list N * Z) :=
   if alen =? 0 then Err ARES_EBADSTR else
   if (enc <? 0) || (enc >=? alen) then Err ARES_EBADSTR else
-  let buf := mkCur abuf alen 0 in
+  let buf := mkCur abuf alen 0 abuf in
   to_badstr (
     do c <- checked (set_position buf enc);
     do start_len <- buf_len c;
